@@ -978,6 +978,10 @@ class ModuleVistor(NodeVisitor):
                         # Avoid format_summary() going back to the original
                         # empty-body docstring.
                         attr.docstring = ''
+                    else:
+                        # The docstring has a description of its own:
+                        # the return field stays a field.
+                        other_fields.append(field)
                 elif tag == 'rtype':
                     attr.parsed_type = field.body()
                 else:
